@@ -123,6 +123,37 @@ def judge_message(ctx, t, a, tm, builder='ctor'):
         ctx.fail('eval(repr(m)) == m', f'repr-raised:{t}', case, f'{type(exc).__name__}: {exc}')
 
 
+class TypeName(str):
+    """A str subclass whose str()/format() is not its characters (what a str-Enum member does)."""
+
+    def __str__(self):
+        return 'TypeName.X'
+
+    def __format__(self, spec):
+        return 'TypeName.X'
+
+
+def judge_str_subclass_type(ctx, t, a, tm):
+    """The message type given as an instance of a str subclass / a str-Enum member: same conversions."""
+    import enum
+    plain = Message(t, time=tm, **a)
+    members = [TypeName(t)]
+    try:
+        members.append(enum.Enum('MsgType', {'M': t}, type=str).M)
+    except Exception:
+        pass
+    for tn in members:
+        case = {'kind': 'str-subclass-type', 'type': t, 'attrs': a, 'class': type(tn).__name__}
+        try:
+            m = Message(tn, time=tm, **a)
+            ctx.check('from_str(str(m)) == m', str(m) == str(plain) and Message.from_str(str(m)) == plain, f'str-subclass-type:str:{t}', case,
+                      lambda: str(m)[:120])
+            ctx.check('from_dict(m.dict()) == m', Message.from_dict(m.dict()) == plain, f'str-subclass-type:dict:{t}', case, None)
+            # (repr() shows the type object's own repr - <MsgType.M: 'sysex'> for an Enum member; not judged)
+        except Exception as exc:
+            ctx.fail('from_str(str(m)) == m', f'str-subclass-type:{type(exc).__name__}:{t}', case, f'{type(exc).__name__}: {exc}')
+
+
 def judge_frozen(ctx, m0, case):
     """The same conversions on the frozen twin of a message AFTER it has been used the way frozen
     messages are used (hashed, put in a set, looked up in a dict)."""
@@ -336,6 +367,8 @@ def run(ctx):
                 judge_message(ctx, t, a, tm)
                 if ai % 3 == 0:
                     judge_frozen(ctx, Message(t, time=tm, **a), {'kind': 'frozen', 'type': t, 'attrs': a, 'time': repr(tm)})
+                if ai % 4 == 1:
+                    judge_str_subclass_type(ctx, t, a, tm)
                 if t == 'sysex' or ai % 4 == 0:
                     judge_message(ctx, t, a, tm, builder=('skip-list', 'skip-bytes', 'skip-gen')[(ai + ti) % 3])
                 ctx.nontrivial((t, tuple(sorted(a.items())), repr(tm)))
@@ -457,6 +490,11 @@ def replay(ctx, case):
         if 'data' in a:
             a['data'] = tuple(a['data'])
         judge_frozen(ctx, Message(case['type'], time=eval(case['time']), **a), case)  # noqa: S307
+    elif k == 'str-subclass-type':
+        a = dict(case['attrs'])
+        if 'data' in a:
+            a['data'] = tuple(a['data'])
+        judge_str_subclass_type(ctx, case['type'], a, 0)
     elif k == 'frozen-meta':
         judge_frozen(ctx, eval(case['repr'], dict(NS)), case)  # noqa: S307
     elif k == 'invalid':
